@@ -285,6 +285,28 @@ func digestCase(t *engine.T, key Key) {
 						t.Fail("digest-length/long/"+ds.name+"/not-truncated-to-order-size", "%s on a %d-byte digest (key %s) = %x; documented truncation to the leftmost 32 bytes gives %x", ds.name, L, key.Name, sig, want)
 					}
 				}
+				if L >= 0 && L < 32 {
+					// a digest is a byte string and GB/T 32918 converts byte strings to integers big-endian (part 1, 4.2.2):
+					// e is the integer the bytes spell, i.e. the same e as the digest left-padded with zero bytes to 32
+					r, s, _ := refSign(c, g, key.D, D, midBlocks())
+					want := ecref.EncodeDERSig(r, s)
+					if !bytes.Equal(sig, want) {
+						t.Fail("digest-length/short/"+ds.name+"/e-is-not-the-integer-of-the-digest", "%s on a %d-byte digest (key %s) = %x; with e = the big-endian integer of the digest the equation gives %x", ds.name, L, key.Name, sig, want)
+					}
+					padded := append(make([]byte, 32-L), D...)
+					if okp := sm2.VerifyASN1(pub, padded, want); !okp {
+						t.Fail("digest-length/short/sm2.VerifyASN1/rejects-zero-extended-digest", "reference signature over the %d-byte digest left-padded to 32 bytes (same integer e) is rejected (key %s)", L, key.Name)
+					}
+					if okp := sm2.VerifyASN1(pub, dg, want); !okp {
+						t.Fail("digest-length/short/sm2.VerifyASN1/rejects-reference-signature", "reference signature with e = integer of the %d-byte digest is rejected (key %s)", L, key.Name)
+					}
+					if L > 0 && D[L-1] != 0 {
+						if okp := sm2.VerifyASN1(pub, append(append([]byte{}, D...), make([]byte, 32-L)...), want); okp {
+							t.Fail("digest-length/short/sm2.VerifyASN1/accepts-under-right-padded-digest", "signature over a %d-byte digest is accepted under the digest right-padded with zeros (a different integer; key %s)", L, key.Name)
+						}
+					}
+					t.Eval(3)
+				}
 				lr, ls, pok := ecref.ParseStrictDERSig(sig)
 				if !pok || lr.Sign() <= 0 || ls.Sign() <= 0 || lr.Cmp(c.N) >= 0 || ls.Cmp(c.N) >= 0 {
 					t.Fail("digest-length/"+cl+"/"+ds.name+"/malformed-signature", "%s on a %d-byte digest returned %x", ds.name, L, sig)
@@ -818,6 +840,41 @@ func legacyWidenCase(t *engine.T, cv elliptic.Curve, ki int) {
 		}
 		t.Nontrivial(fmt.Sprintf("legacy/degenerate/%s/%s/%x", cn, key.Name, tv))
 	}
+	// chosen small (r, s) on a crafted digest (k = s(1+d) + r d, e = r - x([k]G)): r + n and s + n still fit the byte
+	// and bit length of n, so a range check by size instead of by value (or a reduction) would accept them
+	{
+		sh := func(k uint) *big.Int { return new(big.Int).Lsh(one, k) }
+		small := []*big.Int{one, big.NewInt(2), big.NewInt(0xff), sh(64), new(big.Int).Sub(sh(128), one), sh(200), sh(223)}
+		made := 0
+		for _, r := range small {
+			for _, s := range small {
+				k := c.RecoverK(key.D, r, s)
+				if k.Sign() == 0 {
+					continue
+				}
+				e := new(big.Int).Mod(new(big.Int).Sub(r, g.Mul(k).X), n)
+				if r2, s2, ok := FastSignWithK(c, g, key.D, k, ecref.Bytes32(e)); !ok || r2.Cmp(r) != 0 || s2.Cmp(s) != 0 {
+					continue
+				}
+				made++
+				rn, sn := new(big.Int).Add(r, n), new(big.Int).Add(s, n)
+				if rn.BitLen() > n.BitLen() || sn.BitLen() > n.BitLen() {
+					t.Fail("HARNESS/legacy-small-values-too-large", "r=%x s=%x", r, s)
+				}
+				v := legacyDigestCtx(cv, c, key.Pub, e)
+				desc := fmt.Sprintf("%s key %s chosen r=%x s=%x", cn, key.Name, r, s)
+				v.check(t, "legacy/chosen-small-r-s/honest", desc, sigOf(r, s))
+				v.check(t, "legacy/chosen-small-r-s/r=n+r(same-size)", desc, sigOf(rn, s))
+				v.check(t, "legacy/chosen-small-r-s/s=n+s(same-size)", desc, sigOf(r, sn))
+				v.check(t, "legacy/chosen-small-r-s/both+n(same-size)", desc, sigOf(rn, sn))
+				v.check(t, "legacy/chosen-small-r-s/swapped", desc, sigOf(s, r))
+			}
+		}
+		if made < len(small)*len(small)/2 {
+			t.Fail("HARNESS/legacy-chosen-small-vacuous", "only %d pairs constructed", made)
+		}
+		t.Nontrivial(fmt.Sprintf("legacy/chosen-small-r-s/%s/%s/%d", cn, key.Name, made))
+	}
 	// digest values and lengths
 	pub := legacyPub(cv, key.Pub)
 	for _, ev := range []*big.Int{big.NewInt(0), new(big.Int).Sub(n, one), n, new(big.Int).Add(n, big.NewInt(5)), new(big.Int).Sub(new(big.Int).Lsh(one, 256), one)} {
@@ -844,6 +901,12 @@ func legacyWidenCase(t *engine.T, cv elliptic.Curve, ki int) {
 			r, s, _ := refSign(c, g, key.D, D[:32], [][]byte{ecref.Bytes32(legacyChain(c, "verif/c06/legacy-mid", 1))})
 			if want := ecref.EncodeDERSig(r, s); !bytes.Equal(sig, want) {
 				t.Fail("legacy/digest-length/long/not-truncated-to-order-size", "%s key %s, %d-byte digest: %x, documented truncation gives %x", cn, key.Name, L, sig, want)
+			}
+		}
+		if L < 32 {
+			r, s, _ := refSign(c, g, key.D, D, [][]byte{ecref.Bytes32(legacyChain(c, "verif/c06/legacy-mid", 1))})
+			if want := ecref.EncodeDERSig(r, s); !bytes.Equal(sig, want) {
+				t.Fail("legacy/digest-length/short/e-is-not-the-integer-of-the-digest", "%s key %s, %d-byte digest: %x, with e = the big-endian integer of the digest the equation gives %x", cn, key.Name, L, sig, want)
 			}
 		}
 		if !sm2.VerifyASN1(pub, D, sig) {
